@@ -11,7 +11,7 @@ from props.C06 import describe, rules
 REQUIRED_THEOREMS = ['Usid.C11.sides', 'Usid.C11.placeholder', 'Usid.C11.rows_cols_are_the_selection',
                      'Usid.C11.selected_rows_subgrid', 'Usid.C11.sliced_side_dims', 'Usid.C11.sliced_side_coordinates',
                      'Usid.C11.position_side_end_to_end', 'Usid.C11.spectroscopic_side_end_to_end']
-RULE = ('[also: numpy integers, tuples, arrays and repeated indices as selectors, main dtypes f8/f4/i4/c16/compound, dset_name, a repeated call; the Values link of an unsliced side, units of remaining dimensions, quantity/units and element type of the new dataset observed] generator datasets built with raw h5py (any storage order) AND datasets produced by the library\'s own writer in '
+RULE = ('[also: the slicing dictionary object used for another selection first, then edited in place] [also: numpy integers, tuples, arrays and repeated indices as selectors, main dtypes f8/f4/i4/c16/compound, dset_name, a repeated call; the Values link of an unsliced side, units of remaining dimensions, quantity/units and element type of the new dataset observed] generator datasets built with raw h5py (any storage order) AND datasets produced by the library\'s own writer in '
         'both ordering conventions, crossed with slicing dictionaries as in C07 (ints, slices, index lists on any '
         'subset of dimensions; every sixth case an IRREGULAR list that looks regular at first sight, on a long dimension or spread over two) and with the wrapper\'s view (file order, sorted, toggled); the new dataset is read back with raw h5py and compared, coordinate by coordinate '
         '(physical values of the remaining dimensions), with the source; non-trivial = a sliced side keeps >= 2 '
@@ -74,6 +74,8 @@ def generate(seed, tier):
         cases.append({'ds': ds, 'sd': sd, 'source': rng.choice(['raw', 'raw', 'writer_f2s', 'writer_s2f']),
                       'view': rng.choice(['file', 'file', 'sorted', 'toggled']),
                       'dset_name': rng.choice([None, None, None, 'cut']), 'twice': rng.random() < 0.15})
+        if derived_rng(seed, 'C11w', i).random() < 0.3:
+            cases[-1]['warmup'] = True
     return cases
 
 
@@ -149,6 +151,14 @@ def run_impl(inp, work):
             u.toggle_sorting()
         sd = {x['k']: _py_sel(x['v']) for x in inp['sd']}
         kw = {'dset_name': inp['dset_name']} if inp.get('dset_name') else {}
+        if inp.get('warmup'):
+            # the SAME dictionary object first describes another selection (a loop that edits one dictionary in place)
+            real = dict(sd)
+            sd.clear()
+            sd[(out['src_pos_labels'] + out['src_spec_labels'])[0]] = 0
+            call(u.slice_to_dataset, sd)
+            sd.clear()
+            sd.update(real)
         r = call(u.slice_to_dataset, sd, **kw)
         if r[0] == 'err':
             out['err'] = r[1]
